@@ -106,7 +106,7 @@ structure PkgView where
   outcome : String
   /-- an abort of this package is justified: the bytes that the cache directory / the repository offer for the
   handle are not authentic (`Spec.pkgVerdict`, memo-blind), or the property does not prescribe the verdict
-  (`Spec.dupNames`; an abort of the same URL memoised earlier in this process) -/
+  (`Spec.dupNames`; the URL was already expanded in this process, whose memo may repeat an abort) -/
   mayAbort : Bool
   /-- Impl answered this handle from a memo entry that was made for ANOTHER checksum string -/
   staleMemo : Bool
@@ -118,9 +118,9 @@ def views (L : Lib) (o : Op) : State → List PkgReq → List PkgView
     let cache := if o.useCache then some (s.store.cacheOf p.key) else none
     let v := Spec.pkgVerdict L o.kind p cache
     let m := if o.useCache then lookup p.key s.memo else none
-    let sticky := match m with
-      | some ⟨_, _, .error _⟩ => true
-      | _ => false
+    -- the process has already expanded this URL: it may repeat an abort (a memoised error; a memoised expansion whose
+    -- installation aborts again — with an empty datahash, F05c, its data section need not be the one served now)
+    let sticky := m.isSome
     let stale := match m with
       | some me => memoAnswers Impl.memoChecks me p && !(decide (me.raw = p.raw) && decide (me.want = p.expected))
       | none => false
@@ -177,9 +177,11 @@ def handle (args : List String) : Option String :=
       let ok := opOk outs
       let vs := views L o (s.enter o) o.pkgs
       let anyStale := vs.any (·.staleMemo)
-      let fileLinesOf (sp : Bool) := ",".intercalate (sortS (outs.flatMap fun r => match r.exp with
+      -- (two packages may lay out the same path with the same bytes — an empty datahash lets a package carry another
+      -- one's data section, F05c — the image then has it once)
+      let fileLinesOf (sp : Bool) := ",".intercalate (dedupS (sortS (outs.flatMap fun r => match r.exp with
         | some e => fileLines e.files r.nodes sp
-        | none => []))
+        | none => [])))
       -- Impl ok: every package must have been given authentic bytes; Impl fail: some package must justify the abort
       let bad := if ok then (vs.filter (·.outcome != "ok")).map (fun v => (v.outcome, v.staleMemo)) else []
       let spec := if ok then bad.isEmpty else vs.any (·.mayAbort) == false
